@@ -41,7 +41,10 @@ def main():
         p = sh(["git", "-C", repo, "apply", "--whitespace=nowarn", patch])
         if p.returncode != 0:
             print("patch does not apply:", p.stdout); sys.exit(2)
-        shutil.copytree("/verif/engine", root + "/engine", ignore=shutil.ignore_patterns("target"))
+        # MUTANT_ENGINE_SRC / the marker directory: evaluate with a frozen copy of the engine (first-run evaluations of a seeding round
+        # while the engine is being worked on)
+        esrc = os.environ.get("MUTANT_ENGINE_SRC") or ("/tmp/engine-frozen" if os.path.isdir("/tmp/engine-frozen") else "/verif/engine")
+        shutil.copytree(esrc, root + "/engine", ignore=shutil.ignore_patterns("target"))
         os.symlink("/verif/corpus", root + "/corpus")
         ct = root + "/engine/vcheck/Cargo.toml"
         s = open(ct).read().replace('path = "/repo"', f'path = "{repo}"')
